@@ -103,12 +103,32 @@ def Fixes.all : Fixes :=
 /-- the pinned snapshot: nothing repaired -/
 def Fixes.none : Fixes := {}
 
-/-- **What /repo contains now.**  Flip a field to `true` when the corresponding
-`fix:` commit is applied; the driver then expects the repaired behaviour. -/
+/-- **What /repo contains now** unless the driver is told otherwise on its command line
+(`driver_args` in lib/props.d/C14.py, see `Fixes.enable`). -/
 def deployed : Fixes :=
   { Fixes.none with
     -- /repo 44e5446 "fix: validateStdRevision checks the output counts before indexing and sums without panicking"
     revisionSum := true }
+
+/-- Marks one repair as present.  `name` is a field name of `Fixes`, the number of the
+proposed patch (known-findings.d/mdm-fix-<n>-*.patch) or `all`. -/
+def Fixes.enable (f : Fixes) (name : String) : Option Fixes :=
+  match name with
+  | "1" | "programData" => some { f with pdOverflow := true, unlockKeyMin := true }
+  | "pdOverflow" => some { f with pdOverflow := true }
+  | "unlockKeyMin" => some { f with unlockKeyMin := true }
+  | "2" | "readSector" => some { f with readSector := true }
+  | "3" | "readOffset" => some { f with readOffset := true }
+  | "4" | "dropSectors" => some { f with dropSectors := true }
+  | "5" | "v2Roots" => some { f with v2Roots := true }
+  | "6" | "v2Read" => some { f with v2Read := true }
+  | "7" | "v2WriteUpdateProof" => some { f with v2WriteUpdateProof := true }
+  | "8" | "v2FormKeyLen" => some { f with v2FormKeyLen := true }
+  | "9" | "regRecorder" => some { f with regRecorder := true }
+  | "revisionSum" => some { f with revisionSum := true }
+  | "all" => some Fixes.all
+  | "none" => some Fixes.none
+  | _ => none
 
 /-! ## steps: what one Go function does, in order -/
 
